@@ -607,6 +607,47 @@ theorem step_enter_read (s s' : State) (t c : Nat) (e : Ev) (h : stepCaller s t 
         | (split at hp <;> first | (simp at hp; done) | (exact (failTo_pc _).1 hp) | (exact nextReq_pc _ hp) | (exact (afterConnected_pc _ _).1 hp) | (exact toFlush_pc _ _ hp) | (exact (toIdFlush_pc _ _).1 hp)))
     | skip)
 
+theorem misc_pc_ne_readX (s : State) (cfg : Cfg) (k : Caller) :
+    (failTo k).pc ≠ .readX ∧ (nextReq k).pc ≠ .readX ∧ (afterConnected s k).pc ≠ .readX ∧ (toFlush s k).pc ≠ .readX ∧
+    (rcFail k).pc ≠ .readX ∧ (afterIdent s k).pc ≠ .readX ∧ (startIdent s k).pc ≠ .readX ∧ (idNext cfg k).pc ≠ .readX ∧
+    (toIdFlush s k).pc ≠ .readX ∧ (toIdEndFail k).pc ≠ .readX := by
+  have h1 : (failTo k).pc ≠ .readX := by unfold failTo; simp only; split <;> simp
+  have h3 : (afterConnected s k).pc ≠ .readX := by
+    unfold afterConnected; split <;> split <;> (try split) <;> (try (simp; done)) <;> exact h1
+  have h6 : (afterIdent s k).pc ≠ .readX := by unfold afterIdent; split <;> (try split) <;> (try (simp; done)) <;> exact h3
+  refine ⟨h1, ?_, h3, ?_, ?_, h6, ?_, ?_, ?_, ?_⟩
+  · unfold nextReq; split <;> (try split) <;> simp
+  · unfold toFlush; split <;> (try (simp; done)); exact h1
+  · unfold rcFail; split <;> (try (simp; done)); exact h1
+  · unfold startIdent; split <;> (try (simp; done)); exact h6
+  · unfold idNext; split <;> (try split) <;> (try split) <;> simp
+  · unfold toIdFlush; split <;> simp
+  · simp [toIdEndFail]
+
+set_option maxHeartbeats 8000000 in
+/-- the read loop of `getFullReply` is entered by a `more` event only -/
+theorem step_enter_readX (s s' : State) (t c : Nat) (e : Ev) (h : stepCaller s t c e = some s')
+    (hp : (s'.callers c).pc = .readX) : (s.callers c).pc = .readX ∨ ∃ x n, e = .more x n := by
+  step_arms
+  all_goals (first
+    | (left; first | exact hpc | rfl)
+    | (right; exact ⟨_, _, rfl⟩)
+    | (exfalso; simp only [setC_same] at hp; first
+        | (rw [hpc] at hp; simp at hp; done)
+        | (simp at hp; done)
+        | (exact (misc_pc_ne_readX s s.cfg _).1 hp)
+        | (exact (misc_pc_ne_readX s s.cfg _).2.1 hp)
+        | (exact (misc_pc_ne_readX _ s.cfg _).2.2.1 hp)
+        | (exact (misc_pc_ne_readX _ s.cfg _).2.2.2.1 hp)
+        | (exact (misc_pc_ne_readX s s.cfg _).2.2.2.2.1 hp)
+        | (exact (misc_pc_ne_readX _ s.cfg _).2.2.2.2.2.1 hp)
+        | (exact (misc_pc_ne_readX _ s.cfg _).2.2.2.2.2.2.1 hp)
+        | (exact (misc_pc_ne_readX s _ _).2.2.2.2.2.2.2.1 hp)
+        | (exact (misc_pc_ne_readX _ s.cfg _).2.2.2.2.2.2.2.2.1 hp)
+        | (exact (misc_pc_ne_readX s s.cfg _).2.2.2.2.2.2.2.2.2 hp)
+        | (split at hp <;> first | (simp at hp; done) | (exact (misc_pc_ne_readX s s.cfg _).1 hp) | (exact (misc_pc_ne_readX _ s.cfg _).2.2.2.1 hp) | (exact (misc_pc_ne_readX _ s.cfg _).2.2.1 hp) | (exact (misc_pc_ne_readX s s.cfg _).2.1 hp) | (exact (misc_pc_ne_readX _ s.cfg _).2.2.2.2.2.2.2.2.1 hp)))
+    | skip)
+
 /-- a send: the channel has been drained, the receive buffer is emptied -/
 theorem step_send (s s' : State) (t c x conn n : Nat) (d : Bytes) (h : stepCaller s t c (.send x conn n d) = some s') :
     s.conn = some conn ∧ n = s.nsend ∧
